@@ -2,6 +2,7 @@ import Driver.FsmDriver
 import Driver.SszDriver
 import Driver.BoardDriver
 import Driver.AlgDriver
+import Driver.NodeDriver
 
 open Driver
 
@@ -36,11 +37,20 @@ partial def loopAlg (h : IO.FS.Stream) (out : IO.FS.Stream) (st : AlgSt) : IO Un
   out.putStrLn o
   loopAlg h out st'
 
+partial def loopNode (h : IO.FS.Stream) (out : IO.FS.Stream) (st : Dc4bcVerif.Model.Node.NodeSt) : IO Unit := do
+  let line ← h.getLine
+  if line.isEmpty then return ()
+  let toks := (line.trimAscii.toString.splitOn " ").filter (· != "")
+  let (st', o) := nodeStep st toks
+  out.putStrLn o
+  loopNode h out st'
+
 def main (args : List String) : IO UInt32 := do
   let stdin ← IO.getStdin
   let stdout ← IO.getStdout
   match args with
   | ["fsm"] => loopFsm stdin stdout {}; pure 0
+  | ["node"] => loopNode stdin stdout { self := "" }; pure 0
   | ["alg"] => loopAlg stdin stdout {}; pure 0
   | ["board"] => loopBoard stdin stdout []; pure 0
   | ["ssz"] => loopSsz stdin stdout ⟨Dc4bcVerif.Model.Tasks.bakedIndices.toArray⟩; pure 0
